@@ -64,6 +64,6 @@ if __name__ == '__main__':
     if sys.argv[1] == 'verify':
         verify(sys.argv[2])
     else:
-        ids = sys.argv[2:] or sorted(os.listdir(f'{V}/seeded'))
+        ids = sys.argv[2:] or sorted(d for d in os.listdir(f'{V}/seeded') if os.path.isdir(f'{V}/seeded/{d}'))
         r = run(ids)
         json.dump(r, open(f'{V}/seeded/RESULTS.json', 'w'), indent=1)
